@@ -114,8 +114,11 @@ func (r CharRecipe) Generate() (*Password, error) {
 
 	p := &Password{}
 	p.Entropy = r.Entropy()
+	verifYield("CharRecipe.Generate:afterEntropy")
 
 	chars := r.buildCharacterList()
+	chars = verifOrderChars(chars)
+	verifYield("CharRecipe.Generate:afterBuild")
 	if len(chars) == 0 {
 		return nil, fmt.Errorf("no characters to build pwd from")
 	}
@@ -132,6 +135,7 @@ func (r CharRecipe) Generate() (*Password, error) {
 		p.tokens = tokens
 
 		ps := p.String() // creating this variable for debugging
+		verifYield("CharRecipe.Generate:beforeFilter")
 		if requireFilter(ps, r.requiredSets) {
 			return p, nil
 		}
@@ -146,6 +150,7 @@ func (r *CharRecipe) buildCharacterList() charList {
 	allowedChars := r.AllowChars
 	excludedChars := r.ExcludeChars
 	r.requiredSets = make(reqSets, 0)
+	verifYield("buildCharacterList:afterReset")
 	for i, s := range r.RequireSets {
 		if len(s) > 0 {
 			r.requiredSets = append(r.requiredSets,
@@ -153,6 +158,7 @@ func (r *CharRecipe) buildCharacterList() charList {
 		}
 	}
 	for f, ct := range charTypeByFlag {
+		verifYield("buildCharacterList:flagLoop")
 		if r.Allow&f != 0 {
 			allowedChars += ct
 		}
@@ -169,6 +175,7 @@ func (r *CharRecipe) buildCharacterList() charList {
 	}
 
 	// Now we need to clean this all up. First let's make them sets.
+	verifYield("buildCharacterList:beforeSets")
 	excludedSet := setFromString(excludedChars)
 	r.allowedSet = setFromString(allowedChars).Difference(excludedSet)
 
@@ -180,6 +187,7 @@ func (r *CharRecipe) buildCharacterList() charList {
 		r.allowedSet = r.allowedSet.Difference(req.s)
 	}
 
+	verifYield("buildCharacterList:beforeReturn")
 	alphabetSet := r.allowedSet.Union(r.requiredSets.union().s)
 	return strings.Split(stringFromSet(alphabetSet), "")
 }
@@ -187,6 +195,7 @@ func (r *CharRecipe) buildCharacterList() charList {
 // Entropy returns the entropy of a character password given the generator attributes
 func (r CharRecipe) Entropy() float32 {
 	cl := r.buildCharacterList()
+	verifYield("CharRecipe.Entropy:afterBuild")
 	if r.requiredSets.size() != 0 {
 		return r.entropyWithRequired()
 	}
